@@ -22,6 +22,7 @@ def run(ctx):
     ctx.run("C02.ONE-ID", "R-FLOW", mem.one_id)
     ctx.run("C02.KEY-FLOW", "R-FLOW", mem.key_flow)
     ctx.run("C12.CHECK-DOMINATES", "R-ORDER", mem.check_dominates)
+    ctx.run("C12.FASTPATH-COHERENT", "R-DUAL", mem.fastpath_coherent)
     ctx.run("C05.LOAD-TOLERANT", "R-ERRDISC", mem.load_tolerant)
     ctx.run("C07.SIGNATURE", "R-WHO", c07.signature_fresh)
     ctx.run("C07.KINDS", "R-TABLE", c07.kinds)
